@@ -248,10 +248,16 @@ def r4_delete_reset(run):
               [unparse(x.targets[0]) for x in dels], d.loc())
     r = m.func(C + "reset")
     cs = [c for c in calls_named(r.node, "set")]
-    run.check(len(cs) == 1 and [unparse(a) for a in cs[0].args] ==
-              ["name_id", "entity_id", "{}", "0"], "R4", r.qual + "::empty+0",
-              "set(name_id, entity_id, {}, 0)", "reset() calls set(%s)" %
-              [unparse(a) for c in cs for a in c.args], r.loc())
+    got = []
+    if len(cs) == 1:
+        for i, pn in enumerate(("name_id", "entity_id", "info",
+                                "not_on_or_after")):
+            a = arg_of(cs[0], i, pn)
+            got.append(unparse(a) if a is not None else None)
+    run.check(got == ["name_id", "entity_id", "{}", "0"], "R4",
+              r.qual + "::empty+0",
+              "set(name_id, entity_id, {}, 0)", "reset() calls set(%s)" % got,
+              r.loc())
     g = m.func(C + "get")
     rets = [unparse(x.value) for x in walk_no_nested(g.node)
             if isinstance(x, ast.Return)]
